@@ -33,7 +33,13 @@ def shards(tier, seed):
     out += [dict(kind='mirror', shard=i, n=n) for i in range(2)]
     out += [dict(kind='writer', shard=i, n=n) for i in range(4)]
     out += [dict(kind='wedge', shard=i, n=n) for i in range(3)]
+    out.append(dict(kind='wedge-fixed', n=6 if tier == 'quick' else 60))
     return out
+
+
+# centres with four heavy substituents (every bond can carry the wedge, every listing order occurs under rebuild)
+WEDGE_FIXED = ['CC(F)=C=C(Cl)Br', 'CC(F)=C=C(C)Cl', 'CC(N)=C=C(O)CC', 'FC(Cl)=C=C(C)C(C)=O', 'CC(F)=C=C=C=C(Cl)Br',
+               'CC(F)(Cl)Br', 'CC(O)(N)C(C)=O', 'CC1(F)CCCC1Cl', 'OC(C)(CC)C(F)(Cl)C', 'CC(F)=C=C(Cl)C(C)(O)N']
 
 
 def run_shard(shard, tier, seed):
@@ -41,6 +47,10 @@ def run_shard(shard, tier, seed):
         cases = [c for i, c in enumerate(spellings()) if i % shard['parts'] == shard['part']]
         return direct_run(ID, cases, check_case)
     specs = molgen.mol_specs(max_atoms=12, corpus_w=4, curated_w=4, graph_w=5, literal_w=1, sym_w=2)
+    if shard['kind'] == 'wedge-fixed':
+        cases = [{'wedge': {'k': 'smi', 's': t}, 'layout': lay, 'seed': seed * 1000 + i}
+                 for t in WEDGE_FIXED for lay in ('rdkit', 'clean2d') for i in range(shard['n'])]
+        return direct_run(ID, cases, check_case)
     if shard['kind'] == 'wedge':
         strat = st.fixed_dictionaries({'wedge': specs, 'layout': st.sampled_from(['rdkit', 'rdkit', 'clean2d']),
                                        'seed': st.integers(0, 2 ** 31)})
@@ -132,6 +142,8 @@ def check_wedge(case, rec):
     if len(m) > 40:
         return
     m.clean_stereo()
+    # drawn insertion order of atoms and bonds: which substituent is "first listed" at a centre varies
+    m, _mp, _left = molgen.rebuild(m, case['seed'], max_number=900, with_xy=False)
     centres = [('t', n) for n in sorted(m.chiral_tetrahedrons)] + [('a', n) for n in sorted(m.chiral_allenes)]
     if not centres:
         rec.count('wedge:no-centre')
@@ -506,6 +518,26 @@ def check_spelling(case, rec):
     elif not same:
         rec.fail('spelling-rdkit', f'{text!r} read as {str(m)!r}: a different molecule according to RDKit', sig=case['family'])
         return
+    # the RDKit object of the same text (explicit hydrogens kept as atoms) converted by the bridge must carry the configuration the
+    # library reads from the text itself, atom by atom (text order = RDKit atom order)
+    try:
+        from rdkit import Chem
+        from chython.utils.rdkit import from_rdkit_molecule
+        ps = Chem.SmilesParserParams()
+        ps.removeHs = False
+        rd = Chem.MolFromSmiles(text, ps)
+    except Exception:
+        rd = None
+    if rd is not None and rd.GetNumAtoms() == len(m) and not any(b.order == 4 for *_, b in m.bonds()):
+        ok, fr = rec.guard('bridge', from_rdkit_molecule, rd)
+        if ok and len(fr) == len(m):
+            mp = dict(zip(m, fr))
+            d = molgen.compare_stereo(m, fr, mp)
+            rec.count('spellings-through-the-rdkit-bridge')
+            if d:
+                rec.fail('spelling-bridge', f'{text!r}: from_rdkit_molecule(RDKit reading with explicit hydrogens) differs from the '
+                                            f'library reading in {d[:2]}', sig=case['family'])
+                return
     # all spellings RDKit considers the same molecule must be equal in chython, and vice versa
     # (explicit hydrogens are atoms for chython and are stripped by RDKit: fold them in first)
     if any(a.atomic_number == 1 for _, a in m.atoms()):
